@@ -257,6 +257,34 @@ func main() {
 			})
 			e.Strs("prepareFracsFilter", fs, "FilterInRange calls in Searcher.prepareFracs")
 		}
+		if f, err := r.Load("fracmanager/searcher.go"); err != nil {
+			e.Missing("fracmanager/searcher.go", err)
+		} else {
+			if fd := f.Func("", "calcEnsuredIDsCount"); fd == nil {
+				e.Missing("calcEnsuredStmts", "calcEnsuredIDsCount not found")
+			} else {
+				e.Strs("calcEnsuredStmts", stmts(f, fd), "statements of calcEnsuredIDsCount (both sort.Search predicates with their comparison operators)")
+			}
+			if fd := f.Func("Searcher", "SearchDocs"); fd == nil {
+				e.Missing("searchDocsLimitUpdate", "Searcher.SearchDocs not found")
+			} else {
+				var as []string
+				ast.Inspect(fd.Body, func(n ast.Node) bool {
+					switch x := n.(type) {
+					case *ast.AssignStmt:
+						if len(x.Lhs) == 1 && (f.Render(x.Lhs[0]) == "params.Limit" || f.Render(x.Lhs[0]) == "origLimit" || f.Render(x.Lhs[0]) == "fracsChunkSize") {
+							as = append(as, f.Render(x))
+						}
+					case *ast.ForStmt:
+						if x.Cond != nil {
+							as = append(as, "for "+f.Render(x.Cond))
+						}
+					}
+					return true
+				})
+				e.Strs("searchDocsLimitUpdate", as, "loop condition and the limit / chunk-size assignments of Searcher.SearchDocs, source order")
+			}
+		}
 		if f, err := r.Load("fracmanager/fetcher.go"); err != nil {
 			e.Missing("fracmanager/fetcher.go", err)
 		} else if fd := f.Func("", "groupIDsByFraction"); fd == nil {
